@@ -132,7 +132,7 @@ def run(ctx):
                         compare_keys=['pk'], nontrivial=nontrivial, oracle=oracle, classify=classify, finding_class=finding_class)
     ctx.notes.append('observations outside the well-formed generator (model and implementation agree; not counted as violations): '
                      'a Gemfile.lock line of >= 64 KiB silently ends the file without an error; requirements.txt `foo>1.0` and `foo @ url` lines are dropped; '
-                     'go.mod replace directives are chained (a => b, b => c reports c); packages.lock.json `"type": "Project"` references are reported as packages with an empty version')
+                     'go.mod replace directives are chained (a => b, b => c reports c); packages.lock.json `"type": "Project"` references are skipped (fix 9dc2b6de)')
     if skew:
         ctx.mismatches.extend(c for c, _ in skew)
         ctx.violation('the Lean specification and the harness disagree about generated files (%d case(s)): %s — neither is a statement about /repo; first case below' % (len(skew), skew[0][1]),
